@@ -110,6 +110,17 @@ func (b *s3Backend) put(o *object) {
 
 func (b *s3Backend) remove(o *object) { _, _ = b.mem.DeleteObject(b.bucket, b.key(o.kind, o.hash)) }
 
+func (b *s3Backend) forget(hash string) {
+	for _, k := range []cache.EntryKind{cache.CAS, cache.AC, cache.RAW} {
+		_, _ = b.mem.DeleteObject(b.bucket, b.key(k, hash))
+	}
+	b.mu.Lock()
+	delete(b.putRecs, hash)
+	delete(b.plans, hash)
+	delete(b.upPlans, hash)
+	b.mu.Unlock()
+}
+
 func (b *s3Backend) holds(o *object) ([]byte, bool) {
 	return b.fetch(b.key(o.kind, o.hash))
 }
@@ -317,6 +328,17 @@ func (b *azBackend) remove(o *object) {
 	delete(b.objects, b.prefixFor(o.kind)+"/"+o.hash)
 	b.mu.Unlock()
 }
+func (b *azBackend) forget(hash string) {
+	b.mu.Lock()
+	for _, pre := range []string{"cas.v2", "cas", "ac", "raw"} {
+		delete(b.objects, pre+"/"+hash)
+	}
+	delete(b.putRecs, hash)
+	delete(b.plans, hash)
+	delete(b.upPlans, hash)
+	b.mu.Unlock()
+}
+
 func (b *azBackend) holds(o *object) ([]byte, bool) {
 	b.mu.Lock()
 	defer b.mu.Unlock()
